@@ -76,7 +76,7 @@ def main():
     na = [{"property_id": p, "reason": NOT_YET.get(p, "check not built yet in this revision of /verif (planned: see DESIGN.md section 5); not claimed until it runs")} for p in props if p not in CHECKS]
     m = {
         "version": 1,
-        "setup_cmd": ENV + "cd /verif && go build -o bin/verif ./cmd/verif && bin/verif build --race",
+        "setup_cmd": ENV + "cd /verif && go build -o bin/verif ./cmd/verif && bin/verif build --race && (bin/verif conformance > evidence/conformance.txt 2>&1 || echo 'conformance suite reported a disagreement or could not run: see evidence/conformance.txt')",
         "hooks": {
             "guard": "verif-overlay",
             "enable": "no source hooks in /repo: bin/verif instruments the working tree's files into .cache/build/<hash>/ov and builds the harness with `go build -overlay` (sync, sync/atomic, channel operations, select, go statements, context, time and grpc client calls are re-routed to the gomc runtime)",
